@@ -173,6 +173,11 @@ def getitem(ip, o, idx):
         if m is not None:
             return ip.call(m, [idx], {})
     if is_v(o):
+        hook = getattr(ip.registry, 'opaque_getitem', None) if ip.registry else None
+        if hook is not None:
+            r = hook(ip, o, idx)
+            if r is not None:
+                return r[0]
         ip.flags.add('OPAQUE_INDEX')
         return uf('getitem', o, _idx_flat(idx))
     raise Unsupported('subscript of %r' % (o,))
@@ -363,17 +368,16 @@ def binop(ip, op, a, b):
         raise Unsupported('binop %s on %r, %r' % (type(op).__name__, a, b))
     both_int = (is_int(a) or is_bool(a)) and (is_int(b) or is_bool(b))
     if isinstance(op, ast.Add):
-        return to_int(a) + to_int(b) if both_int else to_real(a) + to_real(b)
+        return to_int(a) + to_int(b) if both_int else _fl(ip, to_real(a) + to_real(b))
     if isinstance(op, ast.Sub):
-        return to_int(a) - to_int(b) if both_int else to_real(a) - to_real(b)
+        return to_int(a) - to_int(b) if both_int else _fl(ip, to_real(a) - to_real(b))
     if isinstance(op, ast.Mult):
-        return to_int(a) * to_int(b) if both_int else to_real(a) * to_real(b)
+        return to_int(a) * to_int(b) if both_int else _fl(ip, to_real(a) * to_real(b))
     if isinstance(op, ast.Div):
-        ip.flags.add('REAL_FLOAT')
         den = to_real(b)
         if not ip.decide(den != 0, 'div-nonzero'):
             raise PyRaise(ExcVal('ZeroDivisionError', ()))
-        return to_real(a) / den
+        return _fl(ip, to_real(a) / den)
     if isinstance(op, ast.FloorDiv):
         if both_int:
             if not ip.decide(to_int(b) != 0, 'div-nonzero'):
@@ -392,6 +396,22 @@ def binop(ip, op, a, b):
             return _int_pow(to_int(a) if is_int(a) else to_real(a), cb) if cb > 0 else 1
         return uf('pow', to_real(a), to_real(b), sort=z3.RealSort())
     raise Unsupported('binop %s' % type(op).__name__)
+
+
+U_ROUNDOFF = z3.RealVal(1) / z3.RealVal(2 ** 53)
+
+
+def _fl(ip, exact):
+    """result of one binary64 operation.  Default: the exact real (flag REAL_FLOAT).
+    In fp_relax mode: standard model fl(x) = x (1 + d), |d| <= 2^-53 (no overflow/underflow,
+    flag FP_STANDARD_MODEL) with a fresh d per operation."""
+    if getattr(ip, 'fp_relax', False):
+        ip.flags.add('FP_STANDARD_MODEL')
+        d = fresh_real('delta')
+        ip.add_pc(z3.And(d >= -U_ROUNDOFF, d <= U_ROUNDOFF))
+        return exact * (1 + d)
+    ip.flags.add('REAL_FLOAT')
+    return exact
 
 
 def _is_conc_num(x):
@@ -1313,7 +1333,28 @@ def itertools_product(ip, args, kw):
     raise Unsupported('itertools.product over symbolic-length sequences')
 
 
+def np_ceil(ip, args, kw):
+    x = args[0]
+    if is_int(x):
+        return x
+    x = to_real(x)
+    f = z3.ToInt(x)
+    return z3.ToReal(z3.If(z3.ToReal(f) == x, f, f + 1))
+
+
+def np_floor(ip, args, kw):
+    x = args[0]
+    if is_int(x):
+        return x
+    return z3.ToReal(z3.ToInt(to_real(x)))
+
+
+def np_abs(ip, args, kw):
+    return b_abs(ip, args, kw)
+
+
 LIB = {
+    'numpy.ceil': np_ceil, 'numpy.floor': np_floor, 'numpy.abs': np_abs, 'numpy.absolute': np_abs,
     'numpy.arange': np_arange, 'numpy.array': np_array, 'numpy.round': np_round,
     'numpy.min': np_min, 'numpy.max': np_max, 'numpy.append': np_append,
     'numpy.allclose': np_allclose, 'copy.copy': copy_copy, 'copy.deepcopy': copy_deepcopy,
